@@ -28,7 +28,7 @@ CLAIMED = {
             'kernel lindig.neighbors regenerated from source.',
             'proof + regenerated kernel + differential correspondence', '7 C03'),
     'C05': (E2E + 'upper/lower neighbours are exactly the covers (no member strictly between), NoDup, converse; Context.neighbors(objs) = covers of the '
-            'generated concept for every object list; ctx_neighbors kernel theorem.',
+            'generated concept for every object list; ctx_neighbors kernel theorem; a pickled / copied lattice (concepts pickled by index, relinked by __setstate__) is the same lattice (copy_lattice L = Ok L).',
             'proof + regenerated kernel + differential correspondence', '7 C05'),
     'C06': (E2E + 'iteration strictly sorted by the shortlex key and the key means "fewer members first, ties by first differing position"; index = position; '
             'dindex order = longlex key order; infimum first and least, supremum last and greatest; atoms = covers of the infimum; neighbour tuples '
@@ -57,7 +57,7 @@ CLAIMED = {
     'C12': ('Theorems on a Gallina re-statement of the dumpers/loaders over code-point lists (validated against the library on dumps, independently written '
             'variants and malformed text): table round trip for every indent, cxt round trip, csv round trip for both symbol sets and the sniffing loader '
             '(any labels), readers written from the format descriptions recover the triple from table/cxt/csv/wiki-table output, FIMI/.dat rows are exactly '
-            'the true cells ascending and re-read, infer_format case-insensitive. Partial: codecs, real files, repr/literal_eval and the C csv module are '
+            'the true cells ascending and re-read, infer_format case-insensitive; the loaders read the text of liberal writers written from the format descriptions (any padding, optional final bar, comments, blank lines; any quoting choice for csv). Partial: codecs, real files, repr/literal_eval and the C csv module are '
             'exercised / re-stated, not verified.',
             'proof on a validated model of the formats + differential correspondence (partial)', '7 C12'),
     'C13': ('Theorems: the Definition machine (tools.Unique with _seen next to _items, _pairs set) refines the plain ordered-table model for all 26 '
@@ -68,7 +68,7 @@ CLAIMED = {
     'C14': ('Theorems: copy/union/intersection/take/transposed/inverted/rebuild refine the plain model (cell-wise or/and, conflicts exactly on a shared '
             'differing cell, take selection/unknown names, involutions, rebuild round trip); frame theorems: a derive step and any later history change a '
             'handle only through an in-place operation addressed to it. Aliasing in the code is exposed by observing every live handle after every step. '
-            'Context/Definition agreement of shape, fill_ratio, table string, crc32: harness glue (functions of the triple).',
+            'Context(*d) is accepted iff the name lists are non-empty and disjoint, Context <-> Definition round trips, contexts equal iff triples equal (on the model of Context.__init__ of C19). Agreement of shape, fill_ratio, table string, crc32: harness glue (computed independently from the triple).',
             'proof (refinement) + differential correspondence', '7 C14'),
     'C15': ('Theorems on the specification (which C01-C07 tie to the code): row/column permutation maps concepts, covers, joins, meets and the column '
             'combination patterns through the bijection; transposition swaps extent/intent, reverses covers, exchanges join and meet; duplicated row '
